@@ -15,13 +15,21 @@ def signature(recs, k, mon):
         out["attached"] = a["t"] in pre["st"]["sess"][a["s"]]["subs"]
     if "what" in a:
         out["what"] = a["what"]
-    if "calls" in rec:
-        out["fault"] = bool(rec.get("faultFired"))
+    t = a.get("t")
+    if t in pre["st"]["topics"] and t in pre["st"]["msgs"]:
+        mx = max([m["seq"] for m in pre["st"]["msgs"][t]] or [0])
+        out["rowAhead"] = pre["st"]["topics"][t]["seq"] > mx
+    out["fault"] = bool(rec.get("faultFired"))
+    if rec.get("faultFired") and pre["act"].get("a") == "Fault":
+        nth = pre["act"].get("nth", 1)
+        calls = rec.get("calls") or []
+        out["fmethod"] = calls[nth - 1] if 0 < nth <= len(calls) else "?"
+        out["fmode"] = pre["act"].get("mode")
     return out
 
 
 def run_topic_check(ctx, prop, *, kinds, want, given, maxseq, u1_quick, u1_thorough, sim_quick, sim_thorough,
-                    extra_props=(), nusers=3, sess_per_user=1, maxsubs=3, extra_behaviours=None, assumptions=(), rule="", delranges=None, maxdel=2):
+                    extra_props=(), nusers=3, sess_per_user=1, maxsubs=3, extra_behaviours=None, assumptions=(), rule="", delranges=None, maxdel=2, faults=None):
     thorough = ctx.tier == "thorough"
     users, sess, topics = world.population(nusers, sess_per_user)
     props = [prop] + list(extra_props)
@@ -62,6 +70,54 @@ def run_topic_check(ctx, prop, *, kinds, want, given, maxseq, u1_quick, u1_thoro
     r2, recs, fails, divs = world.check_traces(ctx, trace, cb, props, timeout=1500)
     n = world.report(ctx, recs, fails, divs, prop, sig=signature)
     st = world.stats(recs)
+    nfault = 0
+    if faults:
+        # ---- fault / crash enumeration: one failing (or fatal) adapter call per variant, position taken from the fault-free run
+        import random
+        rng = random.Random(ctx.seed)
+        cand = []
+        steps_of = {b["id"]: b["steps"] for b in bj}
+        for r in recs:
+            if r["i"] > 0 and r["calls"] and r["act"].get("a") in faults.get("kinds", ("Pub", "DelMsg", "Sub", "SetSelf", "SetOther", "Leave", "DelSub", "Note", "NewGrp", "SetDesc")):
+                for k in range(1, len(r["calls"]) + 1):
+                    for mode in faults.get("modes", ("error",)):
+                        cand.append((r["b"], r["i"], k, mode, r["calls"][k - 1]))
+        limit = faults["thorough"] if thorough else faults["quick"]
+        if limit and len(cand) > limit:
+            # keep every (action kind, adapter method, mode) combination represented, then fill randomly
+            rng.shuffle(cand)
+            seen, keep, rest = set(), [], []
+            kind_of = {(r["b"], r["i"]): r["act"]["a"] for r in recs}
+            for c in cand:
+                key = (kind_of[(c[0], c[1])], c[4], c[3], c[2])
+                (keep if key not in seen else rest).append(c)
+                seen.add(key)
+            cand = (keep + rest)[:limit]
+        fvars = []
+        for (b, i, k, mode, meth) in cand:
+            steps = steps_of[b]
+            v = steps[:i - 1] + [{"a": "Fault", "method": "", "nth": k, "mode": mode}, steps[i - 1]]
+            if mode == "crash":
+                v.append({"a": "Restart"})
+                v.append({"a": "Sub", "s": steps[i - 1].get("s", "s1"), "t": "g1", "mode": ["-"], "chan": False, "bg": False})
+            else:
+                v.append({"a": "Reload", "t": "g1"})
+            v.append({"a": "Pub", "s": steps[i - 1].get("s", "s1"), "t": "g1", "c": "c2", "noecho": False, "chan": False})
+            v += steps[i:i + 3]
+            fvars.append(v)
+        if fvars:
+            fbj = world.behaviours_json(fvars, users, sess, topics, prefix="f", maxsubs=maxsubs)
+            ftrace, _ = world.replay(ctx, fbj, tag="f")
+            r3, frecs, ffails, fdivs = world.check_traces(ctx, ftrace, cb, props, name="TraceRunF", timeout=1500)
+            nf = world.report(ctx, frecs, ffails, fdivs, prop, sig=signature)
+            nfault = len(fvars)
+            fired = sum(1 for r in frecs if r.get("faultFired"))
+            vlib.log("fault enumeration: %d variants (%d steps, %d faults fired); %d failures of %s monitors; %d divergences" % (
+                len(fvars), len(frecs), fired, nf, prop, len(fdivs)))
+            ctx.cov["fault_variants"] = {"variants": len(fvars), "steps": len(frecs), "fired": fired, "candidates": len(cand),
+                                         "modes": list(faults.get("modes", ("error",)))}
+            recs = recs + frecs
+            bj = bj + fbj
     vlib.log("replayed %d behaviours (%d regression, %d simulated), %d steps; %d failures of %s monitors; %d divergences" % (
         len(bj), nreg, len(sims), len(recs), n, prop, len(divs)))
     nontriv = len({json.dumps(r["act"], sort_keys=True) + "|" + json.dumps(recs[i - 1]["st"]["subs"], sort_keys=True)
